@@ -104,6 +104,12 @@ Proof.
   destruct (String.eqb k h); reflexivity.
 Qed.
 
+Lemma subs_all_flat h l : (forall x, In x l -> is_flat x = true) -> subs h l = [].
+Proof.
+  intro H. unfold subs. apply flat_map_nil_all. intros [p v] Hx. specialize (H _ Hx).
+  unfold is_flat in H. cbn [fst] in *. destruct p as [|a [|b r]]; try discriminate; reflexivity.
+Qed.
+
 Lemma subs_In h y kvs : In y (subs h kvs) -> exists x, In x kvs /\ fst x = h :: fst y /\ fst y <> [].
 Proof.
   unfold subs. rewrite in_flat_map. intros [x [Hx Hy]]. exists x. split; [exact Hx|].
@@ -115,7 +121,7 @@ Qed.
 Lemma subs_len h y kvs : In y (subs h kvs) -> (S (List.length (fst y)) <= max_len kvs)%nat.
 Proof.
   intro H. destruct (subs_In _ _ _ H) as [x [Hx [Hf _]]]. pose proof (max_len_ge _ _ Hx) as Hl.
-  rewrite Hf in Hl. cbn [List.length] in Hl. exact Hl.
+  destruct x as [p v]. cbn [fst] in *. subst p. cbn [List.length] in Hl. exact Hl.
 Qed.
 
 (* removing flat keys changes neither the nested sub-assignments nor the nested heads *)
@@ -309,9 +315,9 @@ Proof.
         assert (Hh : ~ In h (map fst l)).
         { intro Hin2. apply (Hsh h Hin2). unfold param_names. cbn [params_of].
           apply assoc_v_In_names. congruence. }
-        rewrite (flat_map_nil_all (fun x : kv => _)).
-        2:{ intros x Hx. apply in_map_iff in Hx. destruct Hx as [ne [<- _]]. reflexivity. }
-        rewrite subs_flat_map. apply flat_map_nil_all. intros [n c1] Hn. cbn [fst snd].
+        rewrite (subs_all_flat h (map _ l))
+          by (intros x Hx; apply in_map_iff in Hx; destruct Hx as [ne [<- _]]; reflexivity).
+        cbn [app]. rewrite subs_flat_map. apply flat_map_nil_all. intros [n c1] Hn. cbn [fst snd].
         rewrite (subs_prefix h n _ (Hne c1)).
         destruct (String.eqb n h) eqn:E; [|reflexivity]. apply String.eqb_eq in E. subst n.
         exfalso. apply Hh. change h with (fst (h, c1)). now apply in_map.
@@ -326,8 +332,8 @@ Proof.
       assert (Es : is_steps_param meta cls sp = true).
       { unfold is_steps_param, steps_param. rewrite Em. apply String.eqb_refl. }
       rewrite Es. cbn [subs flat_map fst app]. rewrite subs_app.
-      rewrite (flat_map_nil_all (fun x : kv => _)).
-      2:{ intros x Hx. apply in_map_iff in Hx. destruct Hx as [ne [<- _]]. reflexivity. }
+      rewrite (subs_all_flat h (map _ l))
+        by (intros x Hx; apply in_map_iff in Hx; destruct Hx as [ne [<- _]]; reflexivity).
       cbn [app]. rewrite subs_flat_map.
       rewrite (flat_map_single _ l h c Hnds (assoc_e_In _ _ _ Hc)).
       * cbn [fst snd]. rewrite (subs_prefix h h _ (Hne c)), String.eqb_refl. reflexivity.
@@ -478,7 +484,7 @@ Proof.
                                        | h :: _ => smem h (valid_heads meta e)
                                        end) kvs2 = true).
   { apply forallb_forall. intros x Hx. destruct (G_heads e x Hwh (Hsub x Hx)) as [Hne Hh].
-    destruct x as [[|h r] v]; [congruence|]. cbn [fst head_of] in *. now apply smem_In. }
+    destruct x as [[|h r] v]; cbn [fst head_of] in *; [congruence|]. now apply smem_In. }
   rewrite Hall.
   rewrite fold_set_attr_same.
   - apply fold_components_same. intros h Hh. rewrite Hnh in Hh.
@@ -488,9 +494,12 @@ Proof.
     apply (IH h c Hc (wf_component meta _ _ _ Hwf Hc)).
     apply max_len_lt.
     + (* the nested key x has at least two segments *)
-      pose proof (max_len_ge _ _ Hx) as Hl. destruct x as [[|a [|b r]] v]; try discriminate.
-      cbn [fst List.length] in Hl. lia.
-    + intros y Hy. rewrite <- (subs_G e h c Hwh Hc) in Hy. pose proof (subs_len _ _ _ Hy). lia.
+      pose proof (max_len_ge _ _ Hx) as Hl.
+      pose proof (get_params_paths_nonempty meta _ _ _ Hx) as Hne0.
+      destruct x as [[|a [|b r]] v]; cbn [fst] in *; [congruence|discriminate|].
+      cbn [List.length] in Hl. lia.
+    + intros y Hy. rewrite <- (subs_G e h c Hwh Hc) in Hy. pose proof (subs_len _ _ _ Hy) as Hsl.
+      unfold lt in *. apply le_S_n. exact (Nat.le_trans _ _ _ (le_n_S _ _ Hsl) Hf).
   - intros x Hx Hfl. pose proof (G_flat e x Hwh (Hsub x Hx) Hfl) as [Ha|[c [_ [_ Hn]]]].
     + now apply set_attr_same.
     + exfalso. exact (Hnn x Hx Hfl Hn).
@@ -521,5 +530,4 @@ Qed.
 Theorem set_get_id : forall e, wf meta e = true -> set_params meta e (G e) = Ok e.
 Proof. intros e Hwf. unfold set_params. apply set_get_id_fuel; [exact Hwf|lia]. Qed.
 
-(* ... and so does the shallow form: set_params( **get_params(deep=False) ) *)
 End WithMeta.
